@@ -489,7 +489,14 @@ package zygo
 //@ ghost st := ret0 @after call captureControlState[0]
 //@ C05 ensures restored-after-capture: captured ==> ctlIs(env, st)
 
+// a delayed argument remembers the caller's lexical environment (a private copy of the
+// scope stack and the function that was running), and forcing evaluates in exactly that
+//@ stable C16 SexpLazyArg | CurFunc, Stack, Expr | NewSourceLazyArg, NewValueLazyArg
+//@ func NewSourceLazyArg
+//@ requires typeinv[Stack] env != nil ==> wfs(env.linearstack)
+//@ C16 ensures captures-caller: r0.Expr == expr && !r0.Forced && (env != nil ==> r0.CurFunc == old(env.curfunc) && fresh(r0.Stack) && r0.Stack.tos == old(env.linearstack.tos))
 //@ func (*SexpLazyArg).Force
+//@ C16 assert thunk-runs-in-captured-env @before call CallFunction[0]: arg1.parent == lazy.CurFunc && (lazy.Stack != nil ==> fresh(env.linearstack) && env.linearstack.tos == lazy.Stack.tos)
 //@ ghost captured := false @entry
 //@ ghost captured := true @after call captureControlState[0]
 //@ ghost st := ret0 @after call captureControlState[0]
@@ -749,7 +756,14 @@ package zygo
 
 // forcing: a forced argument returns its memoised value and evaluates nothing;
 // a successful force memoises its result
+// a delayed argument remembers the caller's lexical environment (a private copy of the
+// scope stack and the function that was running), and forcing evaluates in exactly that
+//@ stable C16 SexpLazyArg | CurFunc, Stack, Expr | NewSourceLazyArg, NewValueLazyArg
+//@ func NewSourceLazyArg
+//@ requires typeinv[Stack] env != nil ==> wfs(env.linearstack)
+//@ C16 ensures captures-caller: r0.Expr == expr && !r0.Forced && (env != nil ==> r0.CurFunc == old(env.curfunc) && fresh(r0.Stack) && r0.Stack.tos == old(env.linearstack.tos))
 //@ func (*SexpLazyArg).Force
+//@ C16 assert thunk-runs-in-captured-env @before call CallFunction[0]: arg1.parent == lazy.CurFunc && (lazy.Stack != nil ==> fresh(env.linearstack) && env.linearstack.tos == lazy.Stack.tos)
 //@ C16 ensures memo-hit: old(lazy != nil && lazy.Forced) ==> r1 == nil && r0 == old(lazy.Value) && lazy.Forced && lazy.Value == old(lazy.Value)
 //@ C16 ensures memoises: r1 == nil && lazy != nil ==> lazy.Forced && lazy.Value == r0
 
